@@ -20,6 +20,7 @@ func c16scenario(chance, stream int) *explore.Scenario {
 		var menuN []int64
 		rec := vnet.ZZNewRecNIC()
 		var sent [][]byte
+		var sentStr []string
 		var fwdAfter []int // number of forwarded chunks after each push
 		sc.Cfg.RandLog = &draws
 		sc.Cfg.RandMenu = func(n int64) []int64 {
@@ -56,7 +57,14 @@ func c16scenario(chance, stream int) *explore.Scenario {
 			for i := 0; i < stream; i++ {
 				p := []byte(fmt.Sprintf("dgram-%d-%d", chance, i))
 				sent = append(sent, append([]byte(nil), p...))
-				vnet.ZZPush(f, vnet.ZZUDPChunk("10.0.0.1:1000", "10.0.0.2:2000", p))
+				var c vnet.Chunk
+				if i%2 == 1 || stream == 1 && chance%2 == 0 {
+					c = vnet.ZZTCPChunk("10.0.0.1:1000", "10.0.0.2:2000", p) // filters are protocol agnostic
+				} else {
+					c = vnet.ZZUDPChunk("10.0.0.1:1000", "10.0.0.2:2000", p)
+				}
+				sentStr = append(sentStr, c.String())
+				vnet.ZZPush(f, c)
 				fwdAfter = append(fwdAfter, len(rec.Got))
 			}
 		}
@@ -75,6 +83,7 @@ func c16scenario(chance, stream int) *explore.Scenario {
 			}
 			// forwarded <=> draw >= chance, so exactly clamp(chance,0,100) of the 100 draws drop
 			var want [][]byte
+			var wantStr []string
 			prev := 0
 			for i, d := range draws {
 				fw := fwdAfter[i] - prev
@@ -83,6 +92,7 @@ func c16scenario(chance, stream int) *explore.Scenario {
 				if d >= int64(chance) {
 					should = 1
 					want = append(want, sent[i])
+					wantStr = append(wantStr, sentStr[i])
 				}
 				if fw != should {
 					return out, &explore.Violation{Msg: fmt.Sprintf("chance=%d draw=%d: datagram forwarded %d time(s), want %d", chance, d, fw, should), Sig: "C16 drop-rule"}
@@ -92,8 +102,8 @@ func c16scenario(chance, stream int) *explore.Scenario {
 				return out, &explore.Violation{Msg: "forwarded count differs", Sig: "C16 drop-rule"}
 			}
 			for i, g := range rec.Got {
-				if !bytes.Equal(g.Payload, want[i]) || g.Src != "10.0.0.1:1000" || g.Dst != "10.0.0.2:2000" {
-					return out, &explore.Violation{Msg: fmt.Sprintf("survivor %d altered or out of order: %q from %s to %s", i, g.Payload, g.Src, g.Dst), Sig: "C16 survivor-altered"}
+				if !bytes.Equal(g.Payload, want[i]) || g.Src != "10.0.0.1:1000" || g.Dst != "10.0.0.2:2000" || g.Str != wantStr[i] {
+					return out, &explore.Violation{Msg: fmt.Sprintf("survivor %d altered or out of order: %q from %s to %s, described as %q (handed in as %q)", i, g.Payload, g.Src, g.Dst, g.Str, wantStr[i]), Sig: "C16 survivor-altered"}
 				}
 			}
 			return out, nil
